@@ -338,6 +338,7 @@ class Interp:
         self.truncated_loops = 0
         self.undecided_numeric = 0     # interval comparisons that could not be decided (explored both ways)
         self.ext_stubs = {}            # dotted external name -> callable(interp, args, kwargs) (models of stdlib calls that can fail)
+        self.host_reads = set()        # (host class name, attribute) read from host objects (ast nodes given as data)
         self.max_unknown_len = 2       # an unknown collection is iterated with 0..max_unknown_len unknown elements
         self._modenv = {}
 
@@ -914,6 +915,8 @@ class Interp:
     def e_Name(self, e, env, module):
         ok, v = env.lookup(e.id)
         if ok:
+            if isinstance(v, tuple) and len(v) == 3 and v[0] == "lazy" and isinstance(v[1], ast.AST):
+                return self.global_name(e.id, v[2])      # module-level name not evaluated yet
             return v
         if e.id in ("True", "False", "None"):
             return {"True": True, "False": False, "None": None}[e.id]
@@ -1211,6 +1214,8 @@ class Interp:
                     return ClassRef(o.cls)
                 if attr == "args" and self._is_exception(o.cls):
                     return o.fields.get("args", ())
+            if o.cls is None and o.tag in ("Lock", "RLock", "Condition", "Semaphore", "Event") and attr in ("acquire", "release", "locked", "__enter__", "__exit__", "set", "clear", "is_set", "wait", "notify", "notify_all"):
+                return BoundBuiltin(o, attr)
             raise PyRaise(ExcVal("AttributeError", (f"{o!r} has no attribute {attr}",)))
         if isinstance(o, ClassRef):
             if o.ci.is_enum():
@@ -1250,6 +1255,7 @@ class Interp:
         if isinstance(o, ast.AST):
             # host object: a Python ast node handed to the interpreted code as data
             if hasattr(o, attr):
+                self.host_reads.add((type(o).__name__, attr))
                 return getattr(o, attr)
             raise PyRaise(ExcVal("AttributeError", (f"{type(o).__name__} has no attribute {attr}",)))
         if isinstance(o, ExcVal):
@@ -1266,12 +1272,31 @@ class Interp:
             return BoundBuiltin(o, attr)
         raise Imprecise(f"attribute {attr} of {o!r} at {where_}")
 
+    def _class_body_env(self, ci, skip=None):
+        """names visible while a class-level assignment is evaluated: the class's methods (as plain functions) and
+        its other class-level names (lazily), over the module environment"""
+        interp = self
+
+        class _ClassEnv(Env):
+            def lookup(self_env, name):
+                if name in self_env.vars:
+                    return True, self_env.vars[name]
+                if name != skip and name in ci.assigns:
+                    v = interp._class_attr(ci, name)
+                    if v is not _MISSING:
+                        return True, v
+                if name in ci.methods:
+                    m = ci.methods[name]
+                    return True, Func(m.node, m.module, None, None, m, m.cls)
+                return Env.lookup(self_env, name)
+        return _ClassEnv(self.module_env(ci.module))
+
     def _class_attr(self, ci, attr, seen=()):
         if attr in ci.assigns:
             v = ci.assigns[attr]
             if isinstance(v, ast.Call) and (dotted(v.func) or "").split(".")[-1] == "field":
                 return _MISSING
-            return self.eval(v, Env(self.module_env(ci.module)), ci.module)
+            return self.eval(v, self._class_body_env(ci, attr), ci.module)
         for b in ci.bases:
             for bc in self.p.classes.get(b, []):
                 if bc.key not in seen:
@@ -1579,6 +1604,18 @@ class Interp:
                 raise PyRaise(ExcVal(type(ex).__name__, (str(ex),)))
         if last in ("OrderedDict",) and not args:
             return {}
+        if name in ("itertools.chain", "chain"):
+            out = []
+            for a in args:
+                out.extend(self.iterate(a))
+            return out
+        if name in ("itertools.chain.from_iterable", "chain.from_iterable"):
+            out = []
+            for a in self.iterate(args[0]):
+                out.extend(self.iterate(a))
+            return out
+        if name in ("itertools.islice",) and len(args) == 2 and isinstance(args[1], int):
+            return list(self.iterate(args[0]))[:args[1]]
         if last in ("Lock", "RLock", "Event", "Thread", "Condition", "Semaphore"):
             return Obj(None, {}, tag=last)
         if name in ("time.time", "time.monotonic", "time.perf_counter") or last in ("now", "utcnow", "today"):
@@ -1655,6 +1692,14 @@ class Interp:
 
     def _method(self, recv, name, args, kwargs):
         """method of a native value"""
+        if isinstance(recv, Obj) and recv.cls is None:
+            # synchronisation primitives: sequential interpretation, so acquiring always succeeds at once
+            self.event("sync", recv.tag, name)
+            if name in ("acquire", "__enter__", "wait"):
+                return True
+            if name in ("locked", "is_set"):
+                return self.fresh(f"{recv.tag}.{name}")
+            return None
         if isinstance(recv, dict):
             if name == "get":
                 k = args[0]
